@@ -29,6 +29,7 @@ CHARS = {'has_set_T': ('role(self._desc) >= 5', 4), 'has_set_N': ('role(self._de
 
 
 def register(reg):
+    register_logical_file(reg)
     reg.add_spec_source(SPEC)
     reg.add(Contract(CD, 'ComponentDescriptor._bits_1_3', inline=True))
     reg.add(Contract(CD, 'ComponentDescriptor._bits_4_8', inline=True))
@@ -59,6 +60,32 @@ LD = c07.LD
 ATTR_FIELDS = [('self.component_descriptor', DESC), ('self.label', Bytes), ('self.count', Int), ('self.rep_code', Int), ('self.units', Bytes),
                ('self.value', NoneK)]
 TATTR = KRec('TemplateAttribute', component_descriptor=DESC, label=Bytes, count=Int, rep_code=Int, units=Bytes, value=NoneK)
+
+
+def register_logical_file(reg):
+    """LogicalFile.add_eflr: every explicitly formatted record handed to it that it does not refuse becomes the LAST table of the
+    logical file, with its position; the tables already there are untouched.  (Repeated ORIGIN / WELL-REFERENCE sets are
+    logged, not dropped.)"""
+    LFP = 'src/TotalDepth/RP66V1/core/LogicalFile.py'
+    EFL = KRec('ExplicitlyFormattedLogicalRecord', lr_type=Int, set=KRec('Set', type=Bytes), ident=Int)
+    PE = KRec('PositionEFLR', lrsh_position=Int, eflr=EFL)
+    FLD = KRec('FileLogicalData', lr_type=Int, position=Int)
+    LF = KRec('LogicalFile', eflrs=KView(PE), channel=KOpt(EFL), frame=KOpt(EFL), log_pass=KOpt(Int))
+    reg.add(Contract(LFP, 'LogicalFile.is_next', inline=True))
+    reg.add(Contract(LFP, 'LogicalFile._check_fld_matches_eflr', inline=True))
+    reg.add(Contract(LFP, 'LogicalFile._add_origin_eflr', inline=True))
+    reg.add(Contract('src/TotalDepth/RP66V1/core/LogPass.py', 'log_pass_from_RP66V1', {'frame': EFL, 'channel': EFL}, returns=Int, trusted=True,
+                     may_raise={'Exception': 'True'}, note='log pass construction from FRAME and CHANNEL tables (C04)'), verify=False)
+    reg.add(Contract(
+        LFP, 'LogicalFile.add_eflr', {'self': LF, 'file_logical_data': FLD, 'eflr': EFL},
+        requires=['len(self.eflrs) >= 1'],
+        modifies=['self.eflrs', 'self.channel', 'self.frame', 'self.log_pass'],
+        may_raise={'ExceptionLogicalFileAdd': 'True', 'ExceptionLogicalFile': 'file_logical_data.lr_type != eflr.lr_type', 'Exception': 'True'},
+        ensures=['len(self.eflrs) == len(old(self.eflrs)) + 1',
+                 'self.eflrs[len(self.eflrs) - 1].lrsh_position == file_logical_data.position',
+                 'self.eflrs[len(self.eflrs) - 1].eflr.ident == eflr.ident and self.eflrs[len(self.eflrs) - 1].eflr.lr_type == eflr.lr_type',
+                 'forall(0, len(old(self.eflrs)), lambda j: self.eflrs[j] == old(self.eflrs)[j])'],
+        canaries=['len(self.eflrs) == len(old(self.eflrs))'], crosscheck=False))
 
 
 def register_attrs(reg):
